@@ -1347,7 +1347,7 @@ def run_ctor_chain(prog, cls, interp=None):
     return it
 
 
-def run_method(prog, cls, method_name, interp=None, phase='gen', bind=None):
+def run_method(prog, cls, method_name, interp=None, phase='gen', bind=None, self_role=None):
     it = interp or Interp(prog, cls.name, phase)
     it.phase = phase
     m = prog.resolve_method(cls, method_name)
@@ -1356,7 +1356,7 @@ def run_method(prog, cls, method_name, interp=None, phase='gen', bind=None):
     env = {}
     for p in m.params()[1:]:
         env[p] = (bind or {}).get(p, P('param', p))
-    fr = Frame(m, env, SELF, cls, 0, (m.qualname,))
+    fr = Frame(m, env, self_role if self_role is not None else SELF, cls, 0, (m.qualname,))
     fr.via_funcs = (m,)
     it.block(m.node.body, fr)
     return it
